@@ -266,6 +266,8 @@ func runC03(c *Ctx, emit func(cs *progs.Case) progs.Obs) {
 	runC03Hooks(c, emit)
 	runC03LevelHooks(c, emit)
 	runC03Muted(c, emit)
+	runC03Writerless(c, emit)
+	runC03Interleaved(c, emit, 1)
 }
 
 // checkHookLayout: member keys and hook marks of an event whose only members are one event field, hook fields and the message
@@ -307,6 +309,8 @@ func hookChain(word string, grouping int, s progs.Settings, now time.Time) (step
 //	  for an event of the given level it contributes the field / mark of that level's hook, if set
 //	D Level(Disabled) (as a derivation step of its own: With().Logger().Level(Disabled))   E Level(-128) likewise
 //	X Logger.Hook(user hook adding a field and discarding the event)
+//	O Output(nil) (as a derivation step of its own: With().Logger().Output(nil)): no writer from here on   W Output(w) likewise
+//	Z marker only: the chain starts from New(nil) (Case.Root = 2)
 func hookChainAt(word string, grouping int, s progs.Settings, now time.Time, level int, lhSet uint) (steps []progs.Step, keys []string, ids []uint64) {
 	var cur *progs.Step
 	flush := func() {
@@ -316,7 +320,7 @@ func hookChainAt(word string, grouping int, s progs.Settings, now time.Time, lev
 		}
 	}
 	for i, ch := range word {
-		if ch == 'D' || ch == 'E' {
+		if ch == 'D' || ch == 'E' || ch == 'O' || ch == 'W' {
 			flush()
 		}
 		if cur == nil {
@@ -324,10 +328,13 @@ func hookChainAt(word string, grouping int, s progs.Settings, now time.Time, lev
 			if strings.ContainsAny(word, "DEN") {
 				cur.Noise = []int{0, 2, 3, 0}[(i+grouping)%4] // no Level(-128) noise in chains that say themselves where they are enabled
 			}
+			if strings.ContainsAny(word, "OWZ") {
+				cur.Noise = []int{0, 1, 3, 0}[(i+grouping)%4] // no Output(w) noise in chains that say themselves where they have a writer
+			}
 		}
 		switch ch {
-		case 'N':
-			// marker only: the chain starts from Nop().Output(w) (Case.Root = 1)
+		case 'N', 'Z':
+			// marker only: the chain starts from Nop().Output(w) (Case.Root = 1) / from New(nil) (Case.Root = 2)
 		case 'C':
 			cur.Cops = append(cur.Cops, progs.CallerCop(progs.CallerGlobal))
 			keys = append(keys, s.CallerName)
@@ -371,8 +378,12 @@ func hookChainAt(word string, grouping int, s progs.Settings, now time.Time, lev
 			cur.Mute = 1
 		case 'E':
 			cur.Mute = 2
+		case 'O':
+			cur.Out = 1
+		case 'W':
+			cur.Out = 2
 		}
-		if grouping == 0 || ch == 'H' || ch == 'X' || ch == 'L' || ch == 'D' || ch == 'E' {
+		if grouping == 0 || ch == 'H' || ch == 'X' || ch == 'L' || ch == 'D' || ch == 'E' || ch == 'O' || ch == 'W' {
 			flush()
 		}
 	}
